@@ -42,3 +42,20 @@ Proof.
   destruct (set_position _ _ _); cbn [bind is_codepos]; try discriminate.
   intros H; inversion H; subst. cbn. rewrite app_nil_r. auto.
 Qed.
+
+(** Whole runs.  (i) Without included patches, what reached the writer plus the still open block is
+    exactly the concatenation of every node's bytes in source order. *)
+Theorem C03_run_conservation : forall w ns, forallb (fun n => negb (is_ips n)) ns = true -> forall st addrs st',
+  emit_prefix w st ns addrs = Ok st' ->
+  exists bss, emit_trace w st ns addrs = Ok bss /\
+    concat (map fst (e_out st')) ++ e_block st' = concat (map fst (e_out st)) ++ e_block st ++ concat bss.
+Proof. exact emit_prefix_conserves. Qed.
+(** (ii) From an in-step state (e.g. right after [*=]) a run of non-position nodes whose bytes fit in
+    the mapped range stays in step, across any number of bank ends: contiguous file offsets, each
+    the offset the mapping assigns to the run address, no flush. *)
+Theorem C03_run_offsets : forall w m ns, forallb (fun n => negb (is_position n)) ns = true -> forall st addrs st' bss,
+  synced m st -> emit_prefix w st ns addrs = Ok st' -> emit_trace w st ns addrs = Ok bss ->
+  spec_offset m (a_val (r_reloc (e_r st))) + Z.of_nat (length (concat bss)) < (m_last m - m_first m + 1) * m_mask m ->
+  synced m st' /\ e_baddr st' = e_baddr st /\
+  spec_offset m (a_val (r_reloc (e_r st'))) = spec_offset m (a_val (r_reloc (e_r st))) + Z.of_nat (length (concat bss)).
+Proof. exact emit_prefix_synced. Qed.
